@@ -34,6 +34,9 @@ CLAIMS["C02"] = dict(cat="other", tech="loop inventory over the call graph (SCCs
 CLAIMS["C10"] = dict(cat="other", tech="expression agreement between writer and reader sites (def-use normal forms), dominance clauses, bit-provenance for the key packing",
    text="Registry and layout agreement between the building and the reading side: the number stored for a UUID equals the id of its type-0 registry item on the writer, the reader inserts key_to_id(item_key) on the TYPE_ID_EX branch, recycle re-adds (0, number, uuid) from the same map entry; write_impl/read_from_ints agree on word order, byte units and unsigned key order; type_id's unwrap is covered by the MissingUuidType clause; key/key_to_raw_type_id/key_to_id are mutually inverse on all bit patterns.",
    note=TB + "Indistinguishability of every snapshot after a wire round trip is value-level and not decided; these are the structural conditions it rests on (D6 was a violation of the reader-side agreement).")
+CLAIMS["C09"] = dict(cat="other", tech="expression agreement on sibling functions (def-use normal forms, operand roles), arm/effect agreement between writer and reader, bit-provenance for the key packing",
+   text="Inverse-operation and wire-layout agreement behind delta application: create_item_delta/apply_item_delta store wrapping_sub/wrapping_add with matching operand roles and copy new items verbatim, with no panicking arithmetic on item words; Delta::write_impl and read_impl write/read the size word under the same predicate (object_size(type) is None) for the same argument and exchange the same header length and one data word per element; key packing is a bijection; crc is a wrapping fold; create_raw records deletions exactly for keys missing in the target and an update for every target item.",
+   note=TB + "The equality apply(A, create(A,B)) = B as such, and agreement with the DDNet reference implementation, are value-level / cross-language and are not decided.")
 NA = {}
 m = {"version": 1,
      "setup_cmd": "cd /verif/engine/mirfacts && CARGO_NET_OFFLINE=true cargo build --release --offline",
